@@ -455,8 +455,10 @@ def gen_codec_case(rng, cid, tier, focus):
 
 def gen_size_case(rng, cid, tier):
     """image sizes after every power-of-two prefix of a growing stream (C18)"""
-    lgk = rng.choice([4, 6, 8, 10, 11, 12] + ([14, 16, 18] if tier != "quick" else []))
-    top = (1 << 13) if tier == "quick" else (1 << 17)
+    # (thorough used lg_k up to 18 with 2^17 updates: the list-based register model then needs more than the 25-minute
+    #  shard limit - observed 2026-10-02 - so thorough stops at lg_k 14 and 2^15 updates; big lg_k images are C11/C12's legs)
+    lgk = rng.choice([4, 6, 8, 10, 11, 12] + ([13, 14] if tier != "quick" else []))
+    top = (1 << 13) if tier == "quick" else (1 << 15)
     ops = []
     base = rng.getrandbits(50)
     mode = rng.choice(["distinct", "repeat", "coupon"])
